@@ -56,6 +56,23 @@ CLAIMS = {
         design="§7 C15",
         note=TB + "find_in_ast/annotate_ancestry: model is `partial` (executable Impl), so no theorem speaks about it yet — correspondence + predicate only.",
     ),
+    "C20": dict(
+        technique="Lean 4 theorems on a step machine for file writes (every fault index, any number of targets) and on the CLI decision function + exhaustive fault injection / argv differential run",
+        text=(
+            "Kernel-checked: FsSync.runTargets_all_or_nothing (for ANY list of targets with fresh temp paths and ANY fault "
+            "position (target k, step i) every target file is afterwards byte-identical to before or completely rewritten, "
+            "no temp file is left; induction over the target list), atomic_all_or_nothing, runTargets_frame (no other path "
+            "is touched), Cli.sync_never_internal / sync_reject_untouched / sync_accept_iff / sync_all_or_nothing for the "
+            "decision function of `main`; and the kernel-checked counterexamples for the code as it was "
+            "(plainWrite_not_all_or_nothing = D16, syncOld_internal_witness = D17), both repaired by fix: commits. The model "
+            "is tied to the code by injecting a fault into emit.file's open/write/os.replace at EVERY position of every "
+            "write of generated multi-file syncs (API and CLI) plus a fault in every rendering step, comparing the "
+            "directory snapshot with FsSync.runTargets, and by running main() on generated argv shapes against Cli.*Decide. "
+            "Faults are exceptions (I/O errors), not power loss; gen's own final write is covered under C19."
+        ),
+        design="§7 C20",
+        note=TB + "Fault = a Python exception raised by open/write/os.replace; crash/power-loss semantics (fsync, rename durability) are not modelled. black/ast.unparse run for real.",
+    ),
 }
 
 PENDING_REASON = "check not built yet in this round (work in progress; see DESIGN.md §10 build order) — not a claim that the technique cannot apply"
